@@ -11,11 +11,22 @@
 //!         `mO:<asn>:<hold>:<ap>` `mK` `mU:<n>` `mN:<code>:<sub>` `mR` a real PDU through handle_msg;
 //!         `aS` Session::manual_start(), `aC` Session::connection_established(),
 //!         `aA` a new TCP stream is attached through the hook (no FSM event)
+//!         `T` (`h` lines, not after `aA`) `Session::tick()` with no command and no bytes pending, on the paused clock:
+//!         tokio advances the clock to the next timer, so the call returns when the first of the keepalive / hold /
+//!         delay-open timers the session really started fires and `tick` has raised its event; reply `idle` when it
+//!         would never return (no such timer), `tie` when two timers were due at the same instant (both end the history)
+//!         `q<room>` from now on the application's outgoing PDU queue (`pdu_out`, 64 slots) has only <room> free slots
+//!         at the start of every step (the application is slow in writing to the socket); `send_pdu` is a `try_send`
+//!   OPEN  `<asn>:<hold>:<ap>`: the peer's AS in both widths (two-octet field = asn, or AS_TRANS plus the four-octet
+//!         capability when it does not fit), or `<asn>:<hold>:<ap>:f<field>`: the four-octet AS capability (RFC 6793) carries
+//!         <asn>, the two-octet My-AS field carries <field> – the capability is what says who the peer is
 //!   ap    `-` no ADD-PATH capability, else pairs `<4|6><dir 0..3>` (Ipv4/Ipv6 unicast; direction 0 is
 //!         undefined: the OPEN parses, `addpath_families_vec()` fails)
 //! Request line:  `t <cfg> <step> ...`  a fresh session on a wall-clock runtime; besides the steps above
 //!   step  `wO:..` `wK` `wU:<n>` `wN:<code>:<sub>` the PDU's bytes are written to the loopback socket and
 //!         `Session::tick()` is called (read_frame -> parse -> handle_msg); `c` the peer closes, then `tick()`;
+//!         `wX` a malformed frame (length field 5) is written, then `tick()`; `cM` the peer writes half a header and
+//!         closes, then `tick()`: `read_frame` fails in both cases
 //!         `cD` Command::Disconnect(Shutdown) / `cK` Command::ForcedKeepalive on the command channel, then `tick()`
 //!   reply additionally `noconn` (no connection attached: nothing to read; ends the history), `hang`
 //! Reply: one record per step joined by ` ; `:
@@ -89,7 +100,7 @@ impl Init {
 }
 
 #[derive(Clone, Debug, PartialEq, Eq)]
-pub struct OpenP { asn: u32, hold: u16, ap: Vec<(u8, u8)> }
+pub struct OpenP { asn: u32, hold: u16, ap: Vec<(u8, u8)>, field: Option<u16> }
 
 #[derive(Clone, Debug, PartialEq, Eq)]
 pub enum Step {
@@ -98,10 +109,16 @@ pub enum Step {
     AStart, AConn,
     /// a fresh TCP stream is attached through the hook (no FSM event)
     Attach,
+    /// the application's `pdu_out` queue has only this many free slots at the start of every following step
+    Room(u8),
+    /// `h` lines only: `Session::tick()` with nothing pending but the session's own timers (paused clock)
+    Timer,
     /// `t` lines only: the PDU is written to the socket and `Session::tick()` is called
     Wire(Box<Step>),
     /// `t` lines only: the peer closes the connection and `Session::tick()` is called
     Close,
+    /// `t` lines only: `read_frame` fails - a malformed frame (`false`) / the peer closes in the middle of a frame (`true`)
+    ReadErr(bool),
     /// `t` lines only: `Command::Disconnect(DisconnectReason::Shutdown)` is sent, then `tick()`
     CmdDisconnect,
     /// `t` lines only: `Command::ForcedKeepalive` is sent, then `tick()`
@@ -114,6 +131,8 @@ pub enum Step {
 
 /// capacity of the application channel on `t` lines (small, so that a burst fills it)
 const APP_CAP: usize = 4;
+/// capacity of the outgoing PDU queue the harness (= the application) gives the session
+const PDU_CAP: usize = 64;
 
 fn parse_num(s: &str, max: u64) -> Option<u64> {
     if s.is_empty() || s.len() > 10 || !s.bytes().all(|c| c.is_ascii_digit()) || (s.len() > 1 && s.starts_with('0')) { return None; }
@@ -122,7 +141,8 @@ fn parse_num(s: &str, max: u64) -> Option<u64> {
 }
 
 fn parse_open(parts: &[&str]) -> Option<OpenP> {
-    if parts.len() != 3 { return None; }
+    if parts.len() != 3 && parts.len() != 4 { return None; }
+    let field = if parts.len() == 4 { Some(parse_num(parts[3].strip_prefix('f')?, 65535)? as u16) } else { None };
     let asn = parse_num(parts[0], u32::MAX as u64)? as u32;
     let hold = parse_num(parts[1], 65535)? as u16;
     let mut ap = Vec::new();
@@ -134,12 +154,12 @@ fn parse_open(parts: &[&str]) -> Option<OpenP> {
             ap.push((c[0] - b'0', c[1] - b'0'));
         }
     }
-    Some(OpenP { asn, hold, ap })
+    Some(OpenP { asn, hold, ap, field })
 }
 
 fn show_open(o: &OpenP) -> String {
     let ap = if o.ap.is_empty() { "-".to_string() } else { o.ap.iter().map(|(f, d)| format!("{}{}", f, d)).collect::<String>() };
-    format!("{}:{}:{}", o.asn, o.hold, ap)
+    match o.field { None => format!("{}:{}:{}", o.asn, o.hold, ap), Some(f) => format!("{}:{}:{}:f{}", o.asn, o.hold, ap, f) }
 }
 
 impl Step {
@@ -161,6 +181,8 @@ impl Step {
             "aS" if parts.len() == 1 => Some(Step::AStart),
             "aC" if parts.len() == 1 => Some(Step::AConn),
             "aA" if parts.len() == 1 => Some(Step::Attach),
+            "T" if parts.len() == 1 => Some(Step::Timer),
+            _ if head.starts_with('q') && parts.len() == 1 => Some(Step::Room(parse_num(&head[1..], PDU_CAP as u64)? as u8)),
             _ => None,
         }
     }
@@ -176,8 +198,11 @@ impl Step {
             Step::AStart => "aS".into(),
             Step::AConn => "aC".into(),
             Step::Attach => "aA".into(),
+            Step::Room(n) => format!("q{}", n),
+            Step::Timer => "T".into(),
             Step::Wire(inner) => format!("w{}", &inner.show()[1..]),
             Step::Close => "c".into(),
+            Step::ReadErr(mid) => if *mid { "cM".into() } else { "wX".into() },
             Step::CmdDisconnect => "cD".into(),
             Step::CmdKeepalive => "cK".into(),
             Step::Burst(k, n) => format!("bU:{}:{}", k, n),
@@ -196,7 +221,7 @@ fn header(len: usize, typ: u8) -> Vec<u8> {
 
 pub fn open_bytes(o: &OpenP) -> Vec<u8> {
     let mut caps: Vec<Vec<u8>> = vec![vec![1, 4, 0, 1, 0, 1]];
-    if o.asn > 65535 {
+    if o.asn > 65535 || o.field.is_some() {
         let mut c = vec![65, 4];
         c.extend_from_slice(&o.asn.to_be_bytes());
         caps.push(c);
@@ -213,7 +238,7 @@ pub fn open_bytes(o: &OpenP) -> Vec<u8> {
     let len = 19 + 10 + params.len();
     let mut v = header(len, 1);
     v.push(4);
-    let as2: u16 = if o.asn > 65535 { 23456 } else { o.asn as u16 };
+    let as2: u16 = match o.field { Some(f) => f, None => if o.asn > 65535 { 23456 } else { o.asn as u16 } };
     v.extend_from_slice(&as2.to_be_bytes());
     v.extend_from_slice(&o.hold.to_be_bytes());
     v.extend_from_slice(&[10, 0, 0, 2]);
@@ -284,6 +309,13 @@ pub struct Live {
     real: bool,
     /// application messages taken off the channel while a burst was being processed
     side: Vec<Message>,
+    /// the application's end of `pdu_out` (to occupy slots) and the free slots it leaves per step (`q<room>`)
+    pdu_tx: mpsc::Sender<BgpMsg<Bytes>>,
+    room: usize,
+    /// the configured (local) hold time: every timer interval is at most max(this, 10) seconds
+    hold_secs: u64,
+    /// placeholders put into `pdu_out` before the current step
+    filled: usize,
 }
 
 #[derive(Clone, Debug, PartialEq, Eq, PartialOrd, Ord)]
@@ -293,7 +325,7 @@ pub struct Rec {
 }
 
 #[derive(Clone, Debug, PartialEq, Eq)]
-pub enum Out { Rec(Rec), Todo, Panic, Unparsable, NoConn, Hang }
+pub enum Out { Rec(Rec), Todo, Panic, Unparsable, NoConn, Hang, Idle, Tie }
 
 pub const STATE_NAMES: [&str; 7] = ["?", "Idle", "Connect", "Active", "OpenSent", "OpenConfirm", "Established"];
 
@@ -355,15 +387,15 @@ impl Live {
                 let (rd, wr) = sock.into_split();
                 let (app_tx, app_rx) = mpsc::channel(if real { APP_CAP } else { 256 });
                 let (cmd_tx, cmd_rx) = mpsc::channel(16);
-                let (pdu_tx, pdu_rx) = mpsc::channel(64);
-                let mut s = Session::new(VCfg(cfg), rd, app_tx, cmd_rx, pdu_tx);
+                let (pdu_tx, pdu_rx) = mpsc::channel(PDU_CAP);
+                let mut s = Session::new(VCfg(cfg), rd, app_tx, cmd_rx, pdu_tx.clone());
                 s.verif_attributes_mut().verif_set_flags(cfg.d, cfg.p, cfg.n);
                 if init != FRESH {
                     s.verif_set_state(state_of(init.st));
                     s.verif_set_timers(init.crt, init.hold, init.ka, init.dop);
                     if !init.conn { let _ = s.verif_take_connection(); }
                 }
-                Live { s: Some(s), app: app_rx, pdus: pdu_rx, cmd: cmd_tx, _wr: wr, peer, old: Vec::new(), dead: false, real, side: Vec::new() }
+                Live { s: Some(s), app: app_rx, pdus: pdu_rx, cmd: cmd_tx, _wr: wr, peer, old: Vec::new(), dead: false, real, side: Vec::new(), pdu_tx, room: PDU_CAP, hold_secs: cfg.h as u64, filled: 0 }
             })
         })
     }
@@ -375,6 +407,8 @@ impl Live {
     /// what the step emitted and the state it left
     fn record(&mut self, ok: bool) -> Out {
         let mut outs = Vec::new();
+        // the placeholders that occupied the queue during the step come out first
+        for _ in 0..std::mem::take(&mut self.filled) { let _ = self.pdus.try_recv(); }
         while let Ok(p) = self.pdus.try_recv() {
             outs.push(match p {
                 BgpMsg::Open(m) => format!("O{}", m.holdtime()),
@@ -407,7 +441,7 @@ impl Live {
 
     pub fn step(&mut self, st: &Step) -> Out {
         if self.dead { return Out::Panic; }
-        enum Act { Ev(Event), Msg(BgpMsg<Bytes>), Start, Conn, Wire(Vec<u8>), Close, Attach, Cmd(Command), Burst(Vec<u8>, u8) }
+        enum Act { Ev(Event), Msg(BgpMsg<Bytes>), Start, Conn, Wire(Vec<u8>), Close, Attach, Cmd(Command), Burst(Vec<u8>, u8), Timer, CloseMid }
         let act = match st {
             Step::Ev(k, o) => {
                 let ev = match (*k, o) {
@@ -436,6 +470,8 @@ impl Live {
             Step::AStart => Act::Start,
             Step::AConn => Act::Conn,
             Step::Attach => Act::Attach,
+            Step::Room(n) => { self.room = *n as usize; return self.record(true); }
+            Step::Timer => { if self.real { return Out::Unparsable; } Act::Timer }
             Step::Wire(inner) => {
                 if !self.has_conn() { return Out::NoConn; }
                 Act::Wire(match &**inner {
@@ -443,6 +479,10 @@ impl Live {
                     Step::MNotif(c, s) => notif_bytes(*c, *s), _ => return Out::Unparsable })
             }
             Step::Close => { if !self.has_conn() { return Out::NoConn; } Act::Close }
+            Step::ReadErr(mid) => {
+                if !self.has_conn() { return Out::NoConn; }
+                if *mid { Act::CloseMid } else { let mut b = header(5, 4); b.push(0); Act::Wire(b) }
+            }
             Step::CmdDisconnect => Act::Cmd(Command::Disconnect(routecore::bgp::fsm::session::DisconnectReason::Shutdown)),
             Step::CmdKeepalive => Act::Cmd(Command::ForcedKeepalive),
             Step::Burst(k, n) => {
@@ -452,7 +492,13 @@ impl Live {
                 Act::Burst(b, *k)
             }
         };
-        if matches!(act, Act::Wire(_) | Act::Close | Act::Cmd(_) | Act::Burst(..)) && !self.real { return Out::Unparsable; }
+        if matches!(act, Act::Wire(_) | Act::Close | Act::CloseMid | Act::Cmd(_) | Act::Burst(..)) && !self.real { return Out::Unparsable; }
+        // occupy all but `room` slots of the (empty) outgoing queue for the duration of the step
+        if self.room < PDU_CAP {
+            if let Some(ph) = parse_msg(keepalive_bytes()) {
+                for _ in 0..(PDU_CAP - self.room) { if self.pdu_tx.try_send(ph.clone()).is_ok() { self.filled += 1; } }
+            }
+        }
         if matches!(act, Act::Attach) {
             let (rd, wr, peer) = with_rt_of(self.real, |r| r.rt.block_on(async {
                 let peer = tokio::net::TcpStream::connect(r.addr).await.unwrap();
@@ -470,6 +516,8 @@ impl Live {
         let peer = &mut self.peer;
         let cmd = &self.cmd;
         let (app, side) = (&mut self.app, &mut self.side);
+        let special = std::cell::Cell::new(0u8);
+        let hold_secs = self.hold_secs;
         let r = with_rt_of(self.real, |r| catch_unwind(AssertUnwindSafe(|| r.rt.block_on(async {
             use tokio::io::AsyncWriteExt;
             match act {
@@ -480,6 +528,7 @@ impl Live {
                 // the bytes go over the loopback socket; `tick()` reads, frames, parses and handles them
                 Act::Wire(b) => { peer.write_all(&b).await.unwrap(); peer.flush().await.unwrap(); tick_guarded(s).await }
                 Act::Close => { let _ = peer.shutdown().await; tick_guarded(s).await }
+                Act::CloseMid => { peer.write_all(&[0xffu8; 10]).await.unwrap(); peer.flush().await.unwrap(); let _ = peer.shutdown().await; tick_guarded(s).await }
                 // the command goes through the command channel; `tick()` takes it
                 Act::Cmd(c) => { cmd.send(c).await.unwrap(); tick_guarded(s).await }
                 // one tick per UPDATE; the application starts reading only after 20 ms, and reads until the
@@ -509,8 +558,34 @@ impl Live {
                     res
                 }
                 Act::Attach => unreachable!(),
+                // nothing is pending for `tick()` but the session's timers.  The paused clock is advanced second by
+                // second (every timer interval is a whole number of seconds) WITHOUT polling the session, until a
+                // timer task has queued a tick: two at the same instant are a tie (`select!` would pick at random
+                // and the first event may stop the other timer); exactly one: `tick()` takes it.
+                Act::Timer => {
+                    let sn = s.verif_snapshot();
+                    let any = sn.keepalive_timer_running || sn.hold_timer_running || sn.delay_open_timer_running;
+                    let limit = if any { hold_secs.max(10) + 2 } else { 0 };
+                    let mut pending = [false; 3];
+                    for _ in 0..8 { tokio::task::yield_now().await; }
+                    for _ in 0..limit {
+                        tokio::time::sleep(std::time::Duration::from_secs(1)).await;
+                        for _ in 0..8 { tokio::task::yield_now().await; }
+                        pending = s.verif_timer_ticks_pending();
+                        if pending.iter().any(|p| *p) { break; }
+                    }
+                    match pending.iter().filter(|p| **p).count() {
+                        0 => { special.set(1); Some(true) }
+                        1 => match tokio::time::timeout(std::time::Duration::from_millis(1), s.tick()).await {
+                            Ok(r) => Some(r.is_ok()),
+                            Err(_) => None,   // a tick is queued but `tick()` does not take it
+                        },
+                        _ => { special.set(2); Some(true) }
+                    }
+                }
             }
         }))));
+        match special.get() { 1 => { self.dead = true; return Out::Idle; } 2 => { self.dead = true; return Out::Tie; } _ => {} }
         let r = match r { Ok(None) => { self.dead = true; return Out::Hang; } Ok(Some(b)) => Ok(b), Err(p) => Err(p) };
         match r {
             Err(p) => {
@@ -534,6 +609,8 @@ impl Drop for Live {
 
 fn parse_tick_step(t: &str) -> Option<Step> {
     if t == "c" { return Some(Step::Close); }
+    if t == "cM" { return Some(Step::ReadErr(true)); }
+    if t == "wX" { return Some(Step::ReadErr(false)); }
     if t == "cD" { return Some(Step::CmdDisconnect); }
     if t == "cK" { return Some(Step::CmdKeepalive); }
     if let Some(rest) = t.strip_prefix("bU:") {
@@ -543,6 +620,7 @@ fn parse_tick_step(t: &str) -> Option<Step> {
         if k < 2 { return None; }
         return Some(Step::Burst(k, parse_num(p[1], 200)? as u8));
     }
+    if t == "T" { return None; }   // timers fire through tick() on the paused clock of the `h` lines only
     if let Some(rest) = t.strip_prefix('w') {
         return match Step::parse(&format!("m{}", rest))? { Step::MRefresh => None, m => Some(Step::Wire(Box::new(m))) };
     }
@@ -582,6 +660,8 @@ pub fn parse_line(line: &str) -> Option<(Cfg, Init, Vec<Step>)> {
     let init = Init::parse(w[2])?;
     let mut steps = Vec::new();
     for t in &w[3..] { steps.push(Step::parse(t)?); }
+    // attaching a stream waits for the socket: the paused clock could jump meanwhile
+    if steps.contains(&Step::Timer) && steps.contains(&Step::Attach) { return None; }
     Some((cfg, init, steps))
 }
 
@@ -603,12 +683,12 @@ pub fn run(cfg: Cfg, init: Init, steps: &[Step]) -> Vec<Out> {
 
 fn show_outs(v: &[Out]) -> String {
     v.iter().map(|o| match o { Out::Rec(r) => r.show(), Out::Todo => "todo".into(), Out::Panic => "panic".into(), Out::Unparsable => "unparsable".into(),
-        Out::NoConn => "noconn".into(), Out::Hang => "hang".into() })
+        Out::NoConn => "noconn".into(), Out::Hang => "hang".into(), Out::Idle => "idle".into(), Out::Tie => "tie".into() })
         .collect::<Vec<_>>().join(" ; ")
 }
 
 fn parse_outs(s: &str) -> Option<Vec<Out>> {
-    s.split(" ; ").map(|p| match p { "todo" => Some(Out::Todo), "panic" => Some(Out::Panic), "unparsable" => Some(Out::Unparsable), "noconn" => Some(Out::NoConn), "hang" => Some(Out::Hang),
+    s.split(" ; ").map(|p| match p { "todo" => Some(Out::Todo), "panic" => Some(Out::Panic), "unparsable" => Some(Out::Unparsable), "noconn" => Some(Out::NoConn), "hang" => Some(Out::Hang), "idle" => Some(Out::Idle), "tie" => Some(Out::Tie),
         _ => Rec::parse(p).map(Out::Rec) }).collect()
 }
 
@@ -631,12 +711,16 @@ fn rfc_event(st: &Step, dop: bool, passive: bool) -> Option<u8> {
         Step::MKeep => 26,
         Step::MUpd(_) => 27,
         Step::MNotif(c, s) => if *c == 2 && *s == 1 { 24 } else { 25 },
-        Step::MRefresh | Step::Attach => return None,
+        Step::MRefresh | Step::Attach | Step::Room(_) | Step::Timer => return None,   // Timer: judged separately
         Step::AStart => if passive { 4 } else { 1 },
         Step::AConn => 17,
         Step::Wire(inner) => return rfc_event(inner, dop, passive),
         // the peer closing the connection is TcpConnectionFails
         Step::Close => 18,
+        // the peer closing in the middle of a frame is TcpConnectionFails; a malformed frame (BGPHeaderErr, Event 21) is not
+        // among the events the property lists (start/stop, timers, TCP events, received OPEN / KEEPALIVE / UPDATE /
+        // NOTIFICATION): the oracle abstains on that step (the model still mirrors it)
+        Step::ReadErr(mid) => if *mid { 18 } else { return None },
         // the application's stop command is ManualStop
         Step::CmdDisconnect => 2,
         Step::CmdKeepalive => return None,
@@ -740,8 +824,8 @@ fn gen_is_todo(s: u8, k: u8, dop: bool, n: bool, x: bool) -> bool {
     }
 }
 
-const OK_OPEN: fn() -> OpenP = || OpenP { asn: 65001, hold: 90, ap: vec![] };
-const BAD_OPEN: fn() -> OpenP = || OpenP { asn: 65002, hold: 90, ap: vec![] };
+const OK_OPEN: fn() -> OpenP = || OpenP { asn: 65001, hold: 90, ap: vec![], field: None };
+const BAD_OPEN: fn() -> OpenP = || OpenP { asn: 65002, hold: 90, ap: vec![], field: None };
 
 fn alphabet(malformed_ap: bool) -> Vec<Step> {
     let mut v: Vec<Step> = Vec::new();
@@ -764,8 +848,13 @@ fn alphabet(malformed_ap: bool) -> Vec<Step> {
     v.push(Step::AConn);
     v.push(Step::Attach);
     if malformed_ap {
-        v.push(Step::Ev(12, Some(OpenP { asn: 65001, hold: 90, ap: vec![(4, 0)] })));
-        v.push(Step::MOpen(OpenP { asn: 65001, hold: 90, ap: vec![(4, 3), (6, 0)] }));
+        // every (AS allowed, ADD-PATH converts) combination of both OPEN events: the model's table has all four
+        v.push(Step::Ev(12, Some(OpenP { asn: 65001, hold: 90, ap: vec![(4, 0)], field: None })));
+        v.push(Step::Ev(12, Some(OpenP { asn: 65002, hold: 90, ap: vec![(4, 0)], field: None })));
+        v.push(Step::Ev(20, Some(OpenP { asn: 65001, hold: 90, ap: vec![(6, 0)], field: None })));
+        v.push(Step::Ev(20, Some(OpenP { asn: 65002, hold: 90, ap: vec![(4, 3), (4, 0)], field: None })));
+        v.push(Step::MOpen(OpenP { asn: 65001, hold: 90, ap: vec![(4, 3), (6, 0)], field: None }));
+        v.push(Step::MOpen(OpenP { asn: 65002, hold: 90, ap: vec![(6, 0)], field: None }));
     }
     v
 }
@@ -780,13 +869,15 @@ fn random_open(rng: &mut Rng, malformed_ap: bool) -> OpenP {
             ap.push((if rng.bool() { 4 } else { 6 }, d));
         }
     }
-    OpenP { asn, hold, ap }
+    // one in six: the two widths of the AS number disagree (capability = asn, field = another plausible value)
+    let field = if rng.chance(1, 6) { Some(*rng.pick(&[65001u16, 65002, 23456, 64999, 0])) } else { None };
+    OpenP { asn, hold, ap, field }
 }
 
 fn step_kind(st: &Step, dop: bool) -> u8 {
     match st { Step::Ev(k, _) => *k, Step::MOpen(_) => if dop { 20 } else { 12 }, Step::MKeep => 17, Step::MUpd(_) | Step::Burst(..) => 18,
-        Step::MNotif(2, 1) => 15, Step::MNotif(..) => 16, Step::MRefresh | Step::Attach => 255, Step::AStart => 3, Step::AConn => 10,
-        Step::Wire(inner) => step_kind(inner, dop), Step::Close => 11, Step::CmdDisconnect => 1, Step::CmdKeepalive => 255 }
+        Step::MNotif(2, 1) => 15, Step::MNotif(..) => 16, Step::MRefresh | Step::Attach | Step::Room(_) | Step::Timer => 255, Step::AStart => 3, Step::AConn => 10,
+        Step::Wire(inner) => step_kind(inner, dop), Step::Close | Step::ReadErr(true) => 11, Step::ReadErr(false) => 13, Step::CmdDisconnect => 1, Step::CmdKeepalive => 255 }
 }
 
 impl Prop for C08 {
@@ -795,7 +886,7 @@ impl Prop for C08 {
         silence_panics();
         let mut v = Vec::new();
         // can an OPEN whose ADD-PATH capability carries an undefined direction reach the FSM at all?
-        let malformed_ap = parse_open_msg(&OpenP { asn: 65001, hold: 90, ap: vec![(4, 0)] }).is_some();
+        let malformed_ap = parse_open_msg(&OpenP { asn: 65001, hold: 90, ap: vec![(4, 0)], field: None }).is_some();
         let alpha = alphabet(malformed_ap);
         // (1) exhaustive: every (configuration flags, state, timer/connection context, event)
         for f in 0..16u8 {
@@ -808,6 +899,40 @@ impl Prop for C08 {
                 }
             }
         }
+        // (1b) the same steps with no / one free slot in the application's outgoing PDU queue (send_pdu = try_send)
+        for f in [2u8, 3] {
+            let cfg = Cfg { d: f & 1 != 0, n: f & 2 != 0, p: true, x: true, a: false, h: 90 };
+            for st in 2..=6u8 { for room in [0u8, 1] { for dop in [false, true] {
+                if dop && st > 3 { continue; }
+                let init = Init { st, crt: false, hold: st >= 5, ka: st >= 5, dop, conn: true };
+                for s in &alpha { v.push(show_line(&cfg, &init, &[Step::Room(room), s.clone()])); }
+            } } }
+        }
+        // (1c) the timer branches of Session::tick on the paused clock: every state x every combination of really started
+        //      hold / keepalive / delay-open timers (with ONE timer running the event is determined: the oracle demands
+        //      exactly its RFC row), local hold times with and without ties / zero intervals
+        for d in [false, true] { for h in [90u16, 10, 9, 4, 2, 0] {
+            let cfg = Cfg { d, n: true, p: true, x: true, a: false, h };
+            for st in 1..=6u8 { for t in 1..8u8 {
+                if h != 90 && h != 10 && !matches!(t, 1 | 2 | 3) { continue; }
+                let init = Init { st, crt: false, hold: t & 1 != 0, ka: t & 2 != 0, dop: t & 4 != 0, conn: true };
+                v.push(show_line(&cfg, &init, &[Step::Timer]));
+                if h == 10 || t == 2 { v.push(show_line(&cfg, &init, &[Step::Timer, Step::Timer, Step::Timer, Step::Timer, Step::Timer])); }
+            } }
+        } }
+        // ... and on sessions that started their timers themselves: up to Established, then time passes, KEEPALIVEs /
+        // UPDATEs arrive (hold timer reset) or not (hold timer expiry)
+        for i in 0..(if tier == Tier::Thorough { 4000 } else { 160 }) {
+            let cfg = Cfg { d: i % 4 == 3, n: true, p: true, x: true, a: false, h: *rng.pick(&[10u16, 10, 4, 7, 13, 31, 90, 9, 3]) };
+            let mut steps = vec![Step::AStart, Step::AConn];
+            if cfg.d && rng.bool() { steps.push(Step::Timer); }
+            steps.push(Step::MOpen(OpenP { asn: 65001, hold: *rng.pick(&[90u16, 10, 3, 0, 30]), ap: vec![], field: None }));
+            if rng.chance(4, 5) { steps.push(Step::MKeep); }
+            for _ in 0..rng.usize(1, 14) {
+                steps.push(match rng.below(10) { 0 => Step::MKeep, 1 => Step::MUpd(1), 2 => Step::Ev(17, None), 3 => if rng.bool() { Step::Ev(7, None) } else { Step::AStart }, _ => Step::Timer });
+            }
+            v.push(show_line(&cfg, &FRESH, &steps));
+        }
         // OPEN contents: AS numbers, hold times, ADD-PATH capabilities, in the states that read them
         for a in [false, true] { for h in [0u16, 3, 90, 65535] {
             let cfg = Cfg { d: true, n: true, p: true, x: false, a, h };
@@ -816,7 +941,7 @@ impl Prop for C08 {
                 for asn in [0u32, 65001, 65002, 23456, 4_200_000_001, 4_200_000_002, u32::MAX] {
                     for hold in [0u16, 1, 2, 3, 89, 90, 91, 65535] {
                         for ap in [vec![], vec![(4u8, 1u8)], vec![(4, 2)], vec![(4, 3)], vec![(6, 3)], vec![(6, 2), (4, 3)], vec![(4, 3), (4, 2)]] {
-                            let o = OpenP { asn, hold, ap };
+                            let o = OpenP { asn, hold, ap, field: None };
                             v.push(show_line(&cfg, &init, &[Step::Ev(k, Some(o.clone()))]));
                             if asn == 65001 { v.push(show_line(&cfg, &init, &[Step::MOpen(o)])); }
                         }
@@ -824,6 +949,22 @@ impl Prop for C08 {
                 }
             }
         } }
+        // the two widths of the peer's AS number disagree (RFC 6793: the four-octet capability says who the peer is):
+        // exactly one of capability / two-octet field is an allowed AS, in the arms that check the AS, and up to Established
+        for d in [false, true] {
+            let cfg = Cfg { d, n: true, p: true, x: true, a: false, h: 90 };
+            for (asn, field) in [(65001u32, 65002u16), (65002, 65001), (4_200_000_001, 65002), (4_200_000_001, 23456), (4_200_000_002, 65001),
+                                 (4_200_000_002, 23456), (65001, 23456), (65002, 23456), (65001, 65001), (65002, 65002), (65001, 0), (70000, 65001)] {
+                let o = OpenP { asn, hold: 90, ap: vec![], field: Some(field) };
+                for (st, k, dop) in [(4u8, 12u8, false), (3, 20, true), (2, 20, true)] {
+                    let init = Init { st, crt: true, hold: false, ka: false, dop, conn: true };
+                    v.push(show_line(&cfg, &init, &[Step::Ev(k, Some(o.clone()))]));
+                    v.push(show_line(&cfg, &init, &[Step::MOpen(o.clone()), Step::MKeep]));
+                }
+                v.push(show_line(&cfg, &FRESH, &[Step::AStart, Step::AConn, Step::MOpen(o.clone()), Step::MKeep, Step::MUpd(1)]));
+                v.push(show_tick_line(&cfg, &[Step::AStart, Step::AConn, Step::Wire(Box::new(Step::MOpen(o.clone()))), Step::Wire(Box::new(Step::MKeep))]));
+            }
+        }
         // (2) breadth-first over the abstract session state, every event from every state found
         let depth = if tier == Tier::Thorough { 6 } else { 4 };
         for f in 0..8u8 {
@@ -856,6 +997,9 @@ impl Prop for C08 {
             let cfg = Cfg { d: rng.chance(1, 3), n: rng.bool(), p: rng.chance(3, 4), x: rng.chance(1, 4), a: rng.bool(),
                 h: *rng.pick(&[90u16, 90, 0, 3, 180, 65535]) };
             let len = rng.usize(1, 60);
+            // a quarter of the histories let time pass (`T`: a timer fires through tick()); those never re-attach a stream
+            let timed = rng.chance(1, 4);
+            let cfg = if timed { Cfg { h: *rng.pick(&[10u16, 4, 7, 13, 90, 3, 0]), ..cfg } } else { cfg };
             let mut live = Live::new(cfg, FRESH);
             let mut steps: Vec<Step> = Vec::new();
             for _ in 0..len {
@@ -863,6 +1007,8 @@ impl Prop for C08 {
                 let dop = live.dop_running();
                 let conn = live.has_conn();
                 let pick = |rng: &mut Rng| -> Step {
+                    // rarely: the application's outgoing queue fills up / is drained again
+                    if rng.chance(1, 50) { return Step::Room(*rng.pick(&[0u8, 1, 2, 64, 64])); }
                     // the connection is gone: mostly attach a new one before going on
                     if !conn && s <= 3 && rng.chance(2, 3) { return Step::Attach; }
                     // two thirds: the event that makes progress towards / keeps Established
@@ -892,6 +1038,7 @@ impl Prop for C08 {
                     }
                 };
                 let mut st = pick(rng);
+                if timed && (st == Step::Attach || rng.chance(1, 6)) { st = Step::Timer; }
                 // mostly avoid the arms known to be `todo!()` (they end the history)
                 for _ in 0..4 {
                     let k = step_kind(&st, dop);
@@ -907,9 +1054,9 @@ impl Prop for C08 {
         // (4) the same messages as bytes over the loopback socket: Session::tick() reads, frames, parses, handles
         let w = |m: Step| Step::Wire(Box::new(m));
         let finals: Vec<Step> = vec![
-            w(Step::MOpen(OK_OPEN())), w(Step::MOpen(BAD_OPEN())), w(Step::MOpen(OpenP { asn: 4_200_000_001, hold: 30, ap: vec![] })),
-            w(Step::MOpen(OpenP { asn: 65001, hold: 0, ap: vec![] })), w(Step::MKeep), w(Step::MUpd(0)), w(Step::MUpd(2)),
-            w(Step::MNotif(6, 2)), w(Step::MNotif(2, 1)), w(Step::MNotif(4, 0)), Step::Close, Step::CmdDisconnect, Step::CmdKeepalive,
+            w(Step::MOpen(OK_OPEN())), w(Step::MOpen(BAD_OPEN())), w(Step::MOpen(OpenP { asn: 4_200_000_001, hold: 30, ap: vec![], field: None })),
+            w(Step::MOpen(OpenP { asn: 65001, hold: 0, ap: vec![], field: None })), w(Step::MKeep), w(Step::MUpd(0)), w(Step::MUpd(2)),
+            w(Step::MNotif(6, 2)), w(Step::MNotif(2, 1)), w(Step::MNotif(4, 0)), Step::Close, Step::ReadErr(false), Step::ReadErr(true), Step::CmdDisconnect, Step::CmdKeepalive,
             // more UPDATEs back to back than the application channel holds, the application reading late
             Step::Burst(8, 1), Step::Burst(5, 0), Step::Burst(12, 2),
         ];
@@ -928,6 +1075,15 @@ impl Prop for C08 {
                 v.push(show_tick_line(&cfg, &a));
             } }
         }
+        for f in 0..2u8 {
+            let cfg = Cfg { d: false, n: true, p: true, x: f & 1 != 0, a: false, h: 90 };
+            for pre in &prefixes[2..] { for room in [0u8, 1] {
+                for fin in [Step::CmdDisconnect, Step::CmdKeepalive, w(Step::MUpd(1)), w(Step::MOpen(OK_OPEN())), w(Step::MKeep), Step::Ev(6, None), Step::Ev(1, None)] {
+                    let mut a = pre.clone(); a.push(Step::Room(room)); a.push(fin);
+                    v.push(show_tick_line(&cfg, &a));
+                }
+            } }
+        }
         let n_tick = if tier == Tier::Thorough { 20_000 } else { 300 };
         for _ in 0..n_tick {
             let cfg = Cfg { d: rng.chance(1, 3), n: rng.bool(), p: true, x: rng.bool(), a: false, h: *rng.pick(&[90u16, 180, 65535]) };
@@ -938,10 +1094,10 @@ impl Prop for C08 {
                     3..=6 => w(Step::MKeep),
                     7..=9 => if rng.chance(1, 4) { Step::Burst(rng.range(2, 12) as u8, rng.below(4) as u8) } else { w(Step::MUpd(rng.below(4) as u8)) },
                     10 => w(Step::MNotif(*rng.pick(&[2u8, 4, 6]), rng.below(3) as u8)),
-                    11 => Step::Close,
+                    11 => match rng.below(4) { 0 => Step::ReadErr(false), 1 => Step::ReadErr(true), _ => Step::Close },
                     12 => Step::AStart,
                     13 => Step::AConn,
-                    14 => if rng.bool() { Step::Ev(7, None) } else { Step::CmdKeepalive },
+                    14 => match rng.below(5) { 0 | 1 => Step::Ev(7, None), 2 | 3 => Step::CmdKeepalive, _ => Step::Room(*rng.pick(&[0u8, 1, 2, 64])) },
                     _ => if rng.chance(1, 3) { Step::CmdDisconnect } else { Step::Ev(*rng.pick(&[1u8, 6, 17, 18]), None) },
                 });
             }
@@ -975,10 +1131,12 @@ impl Prop for C08 {
         // ghost history for the Established clause (only meaningful from a fresh session)
         let forced = init != FRESH;
         let mut open_accepted = false; // an OPEN from an allowed AS took the session to OpenConfirm, and it stayed there
+        let (mut t_hold, mut t_ka) = (init.hold, init.ka); // hold / keepalive timer running before the step
+        let mut room = PDU_CAP; // free slots of the application's outgoing queue at the start of a step (`q<room>`)
         for (i, (step, out)) in steps.iter().zip(outs.iter()).enumerate() {
             let r = match out {
                 Out::Rec(r) => r,
-                Out::Unparsable | Out::NoConn => return Ok(()),
+                Out::Unparsable | Out::NoConn | Out::Idle | Out::Tie => return Ok(()),
                 Out::Hang => return Err(format!("step {} `{}`: Session::tick() did not return", i, step.show())),
                 // `todo!()` arms are outside "the events the implementation handles"; any other panic is not
                 Out::Todo => return Ok(()),
@@ -991,18 +1149,20 @@ impl Prop for C08 {
                     return Err(format!("step {} `{}` panicked in state {}", i, step.show(), STATE_NAMES[st as usize]));
                 }
             };
+            if let Step::Room(n) = step { room = *n as usize; }
             let ev = rfc_event(step, dop, cfg.p);
             let upd_n = match step { Step::MUpd(n) | Step::Burst(_, n) => Some(*n as usize), Step::Wire(inner) => match &**inner { Step::MUpd(n) => Some(*n as usize), _ => None }, _ => None };
             // UPDATEs received in this step (a burst outside Established ends with its first UPDATE)
             let upd_k = match step { Step::Burst(k, _) => *k as usize, _ => 1 };
             let is_msg_upd = upd_n.is_some();
-            if let Some(ev) = ev {
+            // clauses 1 and 2 for one RFC event
+            let check12 = |ev: u8| -> Result<(), String> {
                 // clause 1: next state
                 if let Some(want) = rfc_next(st, ev, cfg.d, dop) {
                     // K8: `tick` itself sets Connect after `handle_msg` returned Err and after the peer closed
                     // the connection (Connect is where it waits for Command::AttachStream).  Reported on the
                     // short lines whose last step it is (known_findings.jsonl lists them), passed over elsewhere.
-                    let k8 = tick_line && r.st == 2 && want != 2 && ((matches!(step, Step::Wire(_) | Step::Burst(..)) && !r.ok) || matches!(step, Step::Close));
+                    let k8 = tick_line && r.st == 2 && want != 2 && ((matches!(step, Step::Wire(_) | Step::Burst(..)) && !r.ok) || matches!(step, Step::Close | Step::ReadErr(_)));
                     if k8 {
                         if i + 1 == n_steps && n_steps <= 5 {
                             return Err(format!("step {} `{}`: {} --(RFC event {})--> Connect (set by Session::tick) but RFC 4271 8.2.2 prescribes {} [K8]", i, step.show(),
@@ -1026,13 +1186,35 @@ impl Prop for C08 {
                         None => o.starts_with(&format!("N{}.", code)),
                     });
                     if !hit {
-                        return Err(format!("step {} `{}` in {}: RFC names NOTIFICATION code {} {:?}, sent {:?}", i, step.show(), STATE_NAMES[st as usize], code, sub, r.outs));
+                        // K14: `send_pdu` is a `try_send`; with no free slot in the application's outgoing queue the
+                        // NOTIFICATION is dropped (everything else the arm does still happens)
+                        let k10 = room == 0 && r.outs.is_empty() && !r.conn;
+                        return Err(format!("step {} `{}` in {}: RFC names NOTIFICATION code {} {:?}, sent {:?}{}", i, step.show(), STATE_NAMES[st as usize], code, sub, r.outs,
+                            if k10 { " (the outgoing PDU queue was full: send_pdu drops it) [K14]" } else { "" }));
                     }
                     if r.conn {
                         return Err(format!("step {} `{}` in {}: connection not released", i, step.show(), STATE_NAMES[st as usize]));
                     }
                 }
-            } else if r.st != st {
+                Ok(())
+            };
+            if matches!(step, Step::Timer) {
+                // `tick()` returned because a timer it polls fired: the step must be what RFC 4271 prescribes for the
+                // expiry event of ONE of the timers that were running (Event 10 hold, 11 keepalive, 12 delay-open).
+                // Which of several running timers is due first depends on their durations, which this property does
+                // not speak about.
+                let mut cands: Vec<u8> = vec![];
+                if t_hold { cands.push(10); }
+                if t_ka { cands.push(11); }
+                if dop { cands.push(12); }
+                if cands.is_empty() { return Err(format!("step {} `T`: Session::tick() returned although none of the timers it polls was running", i)); }
+                let res: Vec<Result<(), String>> = cands.iter().map(|e| check12(*e)).collect();
+                if !res.iter().any(|x| x.is_ok()) {
+                    return Err(format!("step {} `T` (timer expiry through Session::tick, running: {:?}): {}", i, cands, res.into_iter().filter_map(|x| x.err()).collect::<Vec<_>>().join(" | ")));
+                }
+            } else if let Some(ev) = ev {
+                check12(ev)?;
+            } else if r.st != st && !matches!(step, Step::ReadErr(false)) {
                 return Err(format!("step {} `{}` is no FSM event but changed the state", i, step.show()));
             }
             // clause 3: Established only after an accepted OPEN from an allowed AS, then a KEEPALIVE
@@ -1071,12 +1253,14 @@ impl Prop for C08 {
             st = r.st;
             dop = r.dop;
             conn = r.conn;
+            t_hold = r.hold;
+            t_ka = r.ka;
         }
         Ok(())
     }
 
     fn nontrivial(&self, _line: &str, reply: &str) -> bool {
-        reply != "bad-op" && reply != "todo" && reply != "panic" && reply != "unparsable"
+        reply != "bad-op" && reply != "todo" && reply != "panic" && reply != "unparsable" && reply != "idle"
     }
 
     fn class(&self, line: &str, reply: &str) -> String {
